@@ -69,7 +69,7 @@ class LeafRelation(BaseRelation):
     ``max_rows==0``; see `make_doomed`.
     """
 
-    parameters: Any = dataclasses.field(repr=True, compare=True, default=None)
+    parameters: Any = dataclasses.field(repr=True, compare=True, hash=False, default=None)
     """Extra data used to uniquely identify and/or reconstruct this relation.
     """
 
